@@ -71,6 +71,11 @@ def r2(ctx):
         wants = [tm.add(tm.add(App("len", (series,)), tm.neg(Sym("window_size"))), 1),
                  tm.add(tm.add(Idx(Attr(series, "shape"), (tm.ZERO,)), tm.neg(Sym("window_size"))), 1)]
         ok = sizes.elt in wants and sizes.iter == Range(0, tm.length(App("builtins.list", (Sym("data_series"),))))
+    # composition: (T - W + 1) stacked rows + (W - 1) markers = T labels per series
+    T_, W_ = Sym("T"), Sym("W")
+    total = tm.add(tm.add(tm.add(T_, tm.neg(W_)), 1), tm.add(W_, -1))
+    ctx.check(total == T_, st, "stacked rows plus padding give back the series length: (T - W + 1) + (W - 1) = T", role="compose-length",
+              expected="T", found=str(total))
     ctx.check(ok, fe, "the sizes used to split the joint labels are len(series) - W + 1, one per series in input order",
               line=split[0].node.lineno, role="frontend-sizes", expected="[len(s) - window_size + 1 for s in data_series]", found=str(sizes)[:140])
 
